@@ -82,7 +82,9 @@ CLAIMED["C14"] = dict(
         "well-typedness is preserved by every client operation, hence accepted_timezone_usable / accepted_charset_usable. Tie: extraction + programs of SET "
         "statements in every spelling, reads and hinted statements over every variable with right- and wrong-typed values against a real connection; after "
         "every statement the full SHOW VARIABLES listing equals the model's store, NOW()/CURDATE()/CURTIME() are shifted by the model's offset (systematic sweep "
-        "of time-zone spellings), the handshake announces the version variable.",
+        "of time-zone spellings), the handshake announces the version variable. Failing-input search when model and code disagree: the same statements on a server in a "
+        "fresh interpreter must give the same listings (state surviving in the process between sessions); a quoted string assigned to a string-typed variable reads "
+        "back as that string (ground truth without the model).",
    note=TB + "Python's int()/str() on floats is supplied by the harness; strings for int variables are ASCII without underscores; utf16/utf32/ucs2 as client character set are exercised by C15, not here. Defect D13c (first middleware ran twice) found and fixed while building this check.",
    design="DESIGN.md section 4, C14")
 CLAIMED["C15"] = dict(
@@ -124,7 +126,9 @@ CLAIMED["C08"] = dict(
         "{2,3,4} real connections with programs of SET / SET NAMES / reads / SHOW VARIABLES / prepare / execute / fetch / reset / close / COM_INIT_DB / "
         "queries completing later / text results over suspending row sources, packets interleaved at event-loop-iteration granularity, in-flight calls "
         "released in random order, transports pausing; overlapping handshakes on shared plugin objects. Oracle: byte-exact output of every connection = output "
-        "of the same program alone on a fresh server; correspondence: every response = the model's @i transcript.",
+        "of the same program alone on a fresh server; two absolute oracles that need no second run (module-level memos survive from run to run inside one process): "
+        "a column named U+00E9 by the application is encoded in THIS connection's character_set_results, and the catalog of a per-user schema lists exactly this "
+        "user's databases and tables; correspondence: every response = the model's @i transcript.",
    note=TB + "Each connection has its own application session object. Granularity is the event-loop iteration (asyncio has no preemption inside one). KILLs are C09's subject.",
    design="DESIGN.md section 4, C08")
 CLAIMED["C05"] = dict(
@@ -191,7 +195,13 @@ CLAIMED["C03"] = dict(
         "an idle connection writes nothing (quiescence); for every command of the supported set, both DEPRECATE_EOF settings and every application plan the "
         "handler script's undisturbed response is accepted by a strict client grammar (OK / ERR / complete result set / cursor-open / prepare-OK block / "
         "field list / nothing for no-reply commands incl. unknown ids). Tie: random command programs through the real Connection compared event by event "
-        "with Mimic.Conn + Mimic.Script; strict wire-level decoder, consecutive sequence ids and silence after the response as oracle.",
+        "with Mimic.Conn + Mimic.Script; strict wire-level decoder, consecutive sequence ids and silence after the response as oracle. "
+        "CODE LEVEL: thirteen coroutine handlers, the dispatch, one iteration of command_phase and its while-True loop are translated from connection.py on every run "
+        "(harness/pytrans3.py -> Mimic/Extracted/HandlersCode.lean); the scripts' write/drain skeleton is derived from that code for every result size (*_script_is_code), "
+        "a whole COM_QUERY exchange is stated on the code (code_query_exchange), one iteration writes the handler's output, one ERR exactly on failure and the sequence "
+        "reset (command_step_is_code), and for EVERY packet list the generated loop ends only by COM_QUIT, ignores what follows it, composes over concatenation, resets "
+        "the sequence after every command and never retracts what was written (code_loop_ends_only_by_quit, code_loop_ignores_after_quit, code_loop_composes, "
+        "code_every_command_resets_sequence, code_nothing_written_is_retracted - the last one assumes the same of the untranslated handle_change_user).",
    note=TB + "Modelled, not verified: asyncio (A1-A4 of DESIGN.md); the 32 KiB threshold flush is abstracted (responses smaller than the buffer); sequence numbers are checked by the oracle, not in Lean.",
    design="DESIGN.md section 4, C03")
 
